@@ -20,7 +20,7 @@ from typing import Any, Dict, List, Optional, Tuple
 
 from ..cfg import cfg_of, ExcTypes
 from ..consteval import ConstEval
-from ..flow import Sym, fpaths, attr_effects, enclosing_handlers
+from ..flow import Sym, fpaths, attr_effects, enclosing_handlers, allfacts
 from ..model import FuncInfo, attr_chain, norm, walk_no_nested
 from ..report import Checker
 
@@ -75,7 +75,7 @@ def run(ch: Checker) -> None:
                     hn = _kw(c, 'hostname', 0)
                     ca = _kw(c, 'ca_file', 1)
                     vmt = norm(sym.value(vm, i)) if vm is not None else 'default(CERT_REQUIRED)'
-                    insecure = dict(p.facts(i)).get('self.flags.insecure_tls_interception')
+                    insecure = allfacts(p, i).get('self.flags.insecure_tls_interception')
                     if vmt.endswith('CERT_NONE') and insecure is not True:
                         bad = ('verification of the origin certificate is switched off (verify_mode=%s) on a path where --insecure-tls-interception was not established' % vmt, p.describe(20))
                     elif not vmt.endswith('CERT_NONE') and not vmt.endswith('CERT_REQUIRED'):
@@ -114,7 +114,7 @@ def run(ch: Checker) -> None:
                 if chn.endswith('.check_hostname') and kind == 'store':
                     seen['ch'] += 1
                     v = norm(sym.value(node.value, i))  # type: ignore[attr-defined]
-                    facts = dict(p.facts(i))
+                    facts = allfacts(p, i)
                     none_mode = [val for k, val in facts.items() if k.replace(' ', '') in ('verify_mode==ssl.VerifyMode.CERT_NONE', 'verify_mode==ssl.CERT_NONE')]
                     if v == 'False':
                         if not (none_mode and none_mode[-1] is True):
